@@ -7,10 +7,10 @@ import Goyang.Spec.Parse
 namespace Goyang.Lemmas.Scan
 open Goyang.Spec.Parse
 
-/-- the next token of `cs` (the tail of a text of `n` characters) and what follows it;
+/-- the next token after skipping (`g` = `skipGround cs`, `cs` the tail of a text of `n` characters) and what follows it;
 `none`: an unterminated quote or comment; `some none`: nothing but white space and comments -/
-def specNext (n : Nat) (cs : List Char) : Option (Option (PTok × List Char)) :=
-  match skipGround cs with
+def specNextG (n : Nat) (g : Option (List Char)) : Option (Option (PTok × List Char)) :=
+  match g with
   | none => none
   | some [] => some none
   | some (c :: r) =>
@@ -29,6 +29,9 @@ def specNext (n : Nat) (cs : List Char) : Option (Option (PTok × List Char)) :=
     else
       some (some (⟨.unq ((c :: r).takeWhile (fun x => !isDelim x)), off⟩, (c :: r).dropWhile (fun x => !isDelim x)))
 
+/-- the next token of `cs` -/
+def specNext (n : Nat) (cs : List Char) : Option (Option (PTok × List Char)) := specNextG n (skipGround cs)
+
 theorem tokensAux_succ (n f : Nat) (cs : List Char) :
     tokensAux n (f + 1) cs =
       match specNext n cs with
@@ -36,7 +39,7 @@ theorem tokensAux_succ (n f : Nat) (cs : List Char) :
       | some none => some []
       | some (some (t, r)) => (tokensAux n f r).map (t :: ·) := by
   conv => lhs; rw [tokensAux]
-  unfold specNext
+  unfold specNext specNextG
   cases skipGround cs with
   | none => rfl
   | some l =>
